@@ -210,6 +210,20 @@ pub struct Seen {
     pub polls: u64,
     pub conversions: u64,
     pub error_order_checks: u64,
+    pub prefilled: u64,
+}
+
+/// How many leading bytes of the stream are handed over in the read buffer instead of being read (0 in two thirds of
+/// the cases; otherwise anything from 1 to the whole stream).
+fn prefill_len(data: &[u8], script: &[ReadStep]) -> usize {
+    if data.is_empty() {
+        return 0;
+    }
+    let h = vh_core::fnv(data).rotate_left(17) ^ (script.len() as u64).wrapping_mul(0xD6E8_FEB8_6659_FD93);
+    if h % 3 != 0 {
+        return 0;
+    }
+    1 + ((h >> 9) % data.len() as u64) as usize
 }
 
 fn poll_stream<S: Stream>(s: Pin<&mut S>, w: &std::task::Waker) -> Poll<Option<S::Item>> {
@@ -220,13 +234,21 @@ fn poll_stream<S: Stream>(s: Pin<&mut S>, w: &std::task::Waker) -> Poll<Option<S
 const INJECTED: io::ErrorKind = io::ErrorKind::ConnectionReset;
 
 /// Drive the real Framed to the end of the stream, collecting items.
-fn drive<C>(codec: C, data: &[u8], script: &[ReadStep], want_len: usize, f: impl Fn(C::Item) -> Vec<u8>, seen: &mut Seen) -> Result<(Vec<Item>, bool), Fail>
+fn drive<C>(codec: C, data: &[u8], script: &[ReadStep], pre: usize, want_len: usize, f: impl Fn(C::Item) -> Vec<u8>, seen: &mut Seen) -> Result<(Vec<Item>, bool), Fail>
 where
     C: Decoder<Error = io::Error>,
 {
     reset_wakers();
-    let io = MockIo::reader(data.to_vec(), script.to_vec());
-    let mut framed = Framed::new(io, codec);
+    // in a third of the cases the first bytes of the stream are already in the read buffer when the Framed is built
+    // (FramedParts::with_read_buf + from_parts, the way a connection is handed over after a protocol switch); the
+    // transport delivers the rest, possibly nothing at all
+    let mut framed = if pre > 0 {
+        seen.prefilled += 1;
+        let io = MockIo::reader(data[pre..].to_vec(), script.to_vec());
+        Framed::from_parts(actix_codec::FramedParts::with_read_buf(io, codec, BytesMut::from(&data[..pre])))
+    } else {
+        Framed::new(MockIo::reader(data.to_vec(), script.to_vec()), codec)
+    };
     // at one poll index (derived from the case) the Framed is rebuilt around the same transport, codec and buffers
     // through one of its conversion methods: the stream must not notice
     let h = vh_core::fnv(data) ^ (script.len() as u64).wrapping_mul(0x9E37_79B9_7F4A_7C15) ^ script_code(script).len() as u64;
@@ -319,13 +341,13 @@ fn conv_dbg<T>(r: Result<T, io::Error>) -> String {
     }
 }
 
-fn actual(which: Which, data: &[u8], script: &[ReadStep], want_len: usize, seen: &mut Seen) -> Result<(Vec<Item>, bool), Fail> {
+fn actual(which: Which, data: &[u8], script: &[ReadStep], pre: usize, want_len: usize, seen: &mut Seen) -> Result<(Vec<Item>, bool), Fail> {
     match which {
-        Which::Lp1 => drive(LpCodec { width: 1 }, data, script, want_len, |v| v, seen),
-        Which::Lp2 => drive(LpCodec { width: 2 }, data, script, want_len, |v| v, seen),
-        Which::Lines => drive(LinesCodec::default(), data, script, want_len, |s| s.into_bytes(), seen),
-        Which::Bytes => drive(BytesCodec, data, script, want_len, |b| b.to_vec(), seen),
-        Which::Stateful => drive(StCodec::default(), data, script, want_len, |v| v, seen),
+        Which::Lp1 => drive(LpCodec { width: 1 }, data, script, pre, want_len, |v| v, seen),
+        Which::Lp2 => drive(LpCodec { width: 2 }, data, script, pre, want_len, |v| v, seen),
+        Which::Lines => drive(LinesCodec::default(), data, script, pre, want_len, |s| s.into_bytes(), seen),
+        Which::Bytes => drive(BytesCodec, data, script, pre, want_len, |b| b.to_vec(), seen),
+        Which::Stateful => drive(StCodec::default(), data, script, pre, want_len, |v| v, seen),
     }
 }
 
@@ -369,7 +391,26 @@ pub fn check_case(which: Which, data: &[u8], script: &[ReadStep], seen: &mut See
     let (want, eos_err) = reference(which, data);
     let injected = script.iter().filter(|s| matches!(s, ReadStep::Err(_))).count();
     let max_items = if which == Which::Bytes { data.len() + injected } else { want.len() + injected };
-    let (got, ended) = actual(which, data, script, max_items, seen)?;
+    // bytes handed over in the read buffer are not read again: the arrival script is shortened by them (Pending and
+    // error steps keep their place)
+    let pre = prefill_len(data, script);
+    let adjusted: Vec<ReadStep> = {
+        let mut left = pre;
+        let mut v = Vec::new();
+        for st in script {
+            match st {
+                ReadStep::Data(k) if left >= *k => left -= *k,
+                ReadStep::Data(k) => {
+                    v.push(ReadStep::Data(*k - left));
+                    left = 0;
+                }
+                other => v.push(*other),
+            }
+        }
+        v
+    };
+    let script: &[ReadStep] = &adjusted;
+    let (got, ended) = actual(which, data, script, pre, max_items, seen)?;
 
     // separate the injected I/O errors from the rest
     let mut rest: Vec<Item> = Vec::new();
@@ -396,8 +437,9 @@ pub fn check_case(which: Which, data: &[u8], script: &[ReadStep], seen: &mut See
     seen.io_errors_surfaced += io_errs as u64;
     // stream order: an I/O error is surfaced after every frame that was complete in the bytes delivered before the
     // failing read (and decodable without knowing that the stream ends)
-    if which != Which::Bytes && injected > 0 {
-        let mut delivered = 0usize;
+    // (not for bytes handed over in the read buffer: a Framed built from parts reads before it decodes them)
+    if which != Which::Bytes && injected > 0 && pre == 0 {
+        let mut delivered = pre;
         let mut nth = 0;
         for st in script {
             match st {
@@ -753,6 +795,7 @@ pub fn run(args: &Args, rep: &mut Report) {
     rep.add("obs_none_stability_polls", seen.none_stable_checks);
     rep.add("obs_frames_over_8k", seen.big_frames);
     rep.add("obs_mid_stream_conversions", seen.conversions);
+    rep.add("obs_streams_with_prefilled_read_buffer", seen.prefilled);
     rep.add("obs_io_error_order_checks", seen.error_order_checks);
     rep.add("obs_polls", seen.polls);
 }
